@@ -136,16 +136,33 @@ def Disp.emitChunkBefore (d : Disp γ) (input : Bytes) (raw : Range) : Except Er
   | some chunk =>
     .ok { (if d.emissionEnabled && !chunk.isEmpty then d.push chunk else d) with rcs := raw.start }
 
+/-- Sequencing of dispatcher steps that may fail: the dispatcher state is kept on failure (the Rust
+mutates in place and returns `Err`). -/
+abbrev DRes (γ : Type) (α : Type) := Disp γ × Except Err α
+
+def DRes.bind {α β : Type} (r : DRes γ α) (f : Disp γ → α → DRes γ β) : DRes γ β :=
+  match r.2 with
+  | .error e => (r.1, .error e)
+  | .ok a => f r.1 a
+
+def DRes.ofExcept (d : Disp γ) (r : Except Err (Disp γ)) : DRes γ Unit :=
+  match r with
+  | .error e => (d, .error e)
+  | .ok d' => (d', .ok ())
+
+/-- note a requested document-encoding change (`SharedEncoding` is a `OnceLock`: first one wins) -/
+def Disp.noteNextEncoding (d : Disp γ) : Option Nat → Disp γ
+  | some e => if d.nextEncoding.isNone then { d with nextEncoding := some e } else d
+  | none => d
+
 /-- `token_produced` / `text_token_produced` (dispatcher.rs:132-167) -/
-def Disp.tokenProduced (ctl : Controller γ) (d : Disp γ) (t : Token) : Disp γ × Except Err Unit :=
-  let (g, res) := ctl.token d.ctl t
-  let d := { d with ctl := g }
-  match res with
+def Disp.tokenProduced (ctl : Controller γ) (d : Disp γ) (t : Token) : DRes γ Unit :=
+  let r := ctl.token d.ctl t
+  let d := { d with ctl := r.1 }
+  match r.2 with
   | .error e => (d, .error e)
   | .ok out =>
-    let d := match out.nextEncoding with
-      | some e => if d.nextEncoding.isNone then { d with nextEncoding := some e } else d
-      | none => d
+    let d := d.noteNextEncoding out.nextEncoding
     if d.emissionEnabled then ({ d with sink := d.sink ++ out.chunks.map .chunk }, .ok ())
     else (d, .ok ())
 
@@ -157,113 +174,111 @@ def Disp.flushEncodingChange (d : Disp γ) : Disp γ :=
 
 /-- `flush_pending_captured_text` → `TextDecoder::flush_pending` (text_decoder.rs:40): a final, empty,
 `last_in_text_node` chunk if a text node is open. (Decoding itself is the `enc` package's model.) -/
-def Disp.flushPendingText (ctl : Controller γ) (d : Disp γ) : Disp γ × Except Err Unit :=
+def Disp.flushPendingText (ctl : Controller γ) (d : Disp γ) : DRes γ Unit :=
   if d.textPending then
-    let d := { d with textPending := false }
-    Disp.tokenProduced ctl d (.text [] d.lastTextType true ⟨d.textPendingStart, d.textPendingStart⟩)
+    Disp.tokenProduced ctl { d with textPending := false }
+      (.text [] d.lastTextType true ⟨d.textPendingStart, d.textPendingStart⟩)
   else (d, .ok ())
 
 def attrsOf (input : Bytes) (as : List AttrOutline) : Option (List (Bytes × Bytes × AttrOutline)) :=
-  as.mapM fun a =>
+  as.mapM fun (a : AttrOutline) =>
     match checkedSlice input a.name, checkedSlice input a.value with
     | some n, some v => some (n, v, a)
     | _, _ => none
 
-/-- `try_produce_token_from_lexeme` for tag lexemes, with `to_token` (to_token.rs:23) inlined. -/
-def Disp.produceTag (ctl : Controller γ) (d : Disp γ) (input : Bytes) (lx : TagLexeme) :
-    Disp γ × Except Err Unit :=
-  let mk : Option (Disp γ × Option Token) :=
-    match lx.outline with
-    | .startTag name _ ns as sc =>
-      if d.flags.nextStartTag then
-        match checkedSlice input name, attrsOf input as, checkedSlice input lx.raw with
-        | some n, some attrs, some raw =>
-          some ({ d with flags := { d.flags with nextStartTag := false } },
-                some (.startTag n attrs ns sc raw ⟨lx.prevConsumed + lx.raw.start, lx.prevConsumed + lx.raw.end⟩ lx.prevConsumed))
-        | _, _, _ => none
-      else some (d, none)
-    | .endTag name _ =>
-      if d.flags.nextEndTag then
-        match checkedSlice input name, checkedSlice input lx.raw with
-        | some n, some raw =>
-          some ({ d with flags := { d.flags with nextEndTag := false } },
-                some (.endTag n raw ⟨lx.prevConsumed + lx.raw.start, lx.prevConsumed + lx.raw.end⟩))
-        | _, _ => none
-      else some (d, none)
-  match mk with
-  | none => (d, .error (.panic "Bytes::slice out of range in to_token"))
-  | some (d, none) => (d, .ok ())
-  | some (d, some tok) =>
-    match d.emitChunkBefore input lx.raw with
-    | .error e => (d, .error e)
-    | .ok d =>
-      let (d, r) := Disp.tokenProduced ctl d tok
-      match r with
-      | .error e => (d, .error e)
-      | .ok () => ({ d with rcs := lx.raw.end }.flushEncodingChange, .ok ())
+def srcOf (prevConsumed : Nat) (raw : Range) : Range := ⟨prevConsumed + raw.start, prevConsumed + raw.end⟩
 
-/-- `try_produce_token_from_lexeme` for non-tag lexemes (to_token.rs:63). -/
-def Disp.produceNonTag (ctl : Controller γ) (d : Disp γ) (input : Bytes) (lx : NonTagLexeme) :
-    Disp γ × Except Err Unit :=
-  let src : Range := ⟨lx.prevConsumed + lx.raw.start, lx.prevConsumed + lx.raw.end⟩
+/-- `to_token` for tag lexemes (to_token.rs:23): `none` = a slice was out of range (debug assertion);
+`some (flags', none)` = no token wanted. -/
+def tagToToken (flags : Flags) (input : Bytes) (lx : TagLexeme) : Option (Flags × Option Token) :=
   match lx.outline with
-  | some (.text tt) =>
-    if d.flags.text then
-      match checkedSlice input lx.raw with
-      | none => (d, .error (.panic "Bytes::slice out of range (text raw)"))
-      | some raw =>
-        match d.emitChunkBefore input lx.raw with
-        | .error e => (d, .error e)
-        | .ok d =>
-          let d := { d with lastTextType := tt }
-          -- feed_text(lexeme, last = false): one chunk for the lexeme; the node stays open
-          let (d, r) := Disp.tokenProduced ctl d (.text raw tt false src)
-          match r with
-          | .error e => (d, .error e)
-          | .ok () => ({ d with textPending := true, textPendingStart := src.end, rcs := lx.raw.end }, .ok ())
-    else (d, .ok ())
+  | .startTag name _ ns as sc =>
+    if flags.nextStartTag then
+      match checkedSlice input name, attrsOf input as, checkedSlice input lx.raw with
+      | some n, some attrs, some raw =>
+        some ({ flags with nextStartTag := false },
+              some (.startTag n attrs ns sc raw (srcOf lx.prevConsumed lx.raw) lx.prevConsumed))
+      | _, _, _ => none
+    else some (flags, none)
+  | .endTag name _ =>
+    if flags.nextEndTag then
+      match checkedSlice input name, checkedSlice input lx.raw with
+      | some n, some raw =>
+        some ({ flags with nextEndTag := false }, some (.endTag n raw (srcOf lx.prevConsumed lx.raw)))
+      | _, _ => none
+    else some (flags, none)
+
+/-- the common tail of `try_produce_token_from_lexeme` for non-text tokens: emit what precedes the
+lexeme, hand the token over, consume the lexeme, apply a pending encoding change. -/
+def Disp.emitToken (ctl : Controller γ) (d : Disp γ) (input : Bytes) (raw : Range) (tok : Token) : DRes γ Unit :=
+  (DRes.ofExcept d (d.emitChunkBefore input raw)).bind fun d _ =>
+  (Disp.tokenProduced ctl d tok).bind fun d _ =>
+  ({ d with rcs := raw.end }.flushEncodingChange, .ok ())
+
+/-- `try_produce_token_from_lexeme` for tag lexemes. -/
+def Disp.produceTag (ctl : Controller γ) (d : Disp γ) (input : Bytes) (lx : TagLexeme) : DRes γ Unit :=
+  match tagToToken d.flags input lx with
+  | none => (d, .error (.panic "Bytes::slice out of range in to_token"))
+  | some ft =>
+    let d := { d with flags := ft.1 }
+    match ft.2 with
+    | none => (d, .ok ())
+    | some tok => d.emitToken ctl input lx.raw tok
+
+/-- `to_token` for non-tag lexemes other than text (to_token.rs:63) -/
+def nonTagToToken (flags : Flags) (input : Bytes) (lx : NonTagLexeme) : Option (Option Token) :=
+  let src := srcOf lx.prevConsumed lx.raw
+  match lx.outline with
   | some (.comment text) =>
-    if d.flags.comments then
+    if flags.comments then
       match checkedSlice input text, checkedSlice input lx.raw with
-      | some t, some raw =>
-        match d.emitChunkBefore input lx.raw with
-        | .error e => (d, .error e)
-        | .ok d =>
-          let (d, r) := Disp.tokenProduced ctl d (.comment t raw src)
-          match r with
-          | .error e => (d, .error e)
-          | .ok () => ({ d with rcs := lx.raw.end }.flushEncodingChange, .ok ())
-      | _, _ => (d, .error (.panic "Bytes::slice out of range (comment)"))
-    else (d, .ok ())
+      | some t, some raw => some (some (.comment t raw src))
+      | _, _ => none
+    else some none
   | some (.doctype dt) =>
-    if d.flags.doctypes then
-      -- opt_part uses `get`, i.e. yields None when out of range
+    if flags.doctypes then
+      -- `opt_part` uses `get`, i.e. yields `None` when out of range
       let opt (r : Option Range) : Option Bytes := r.bind (checkedSlice input)
       match checkedSlice input lx.raw with
-      | some raw =>
-        match d.emitChunkBefore input lx.raw with
-        | .error e => (d, .error e)
-        | .ok d =>
-          let (d, r) := Disp.tokenProduced ctl d
-            (.doctype (opt dt.name) (opt dt.publicId) (opt dt.systemId) dt.forceQuirks raw src)
-          match r with
-          | .error e => (d, .error e)
-          | .ok () => ({ d with rcs := lx.raw.end }.flushEncodingChange, .ok ())
-      | none => (d, .error (.panic "Bytes::slice out of range (doctype raw)"))
-    else (d, .ok ())
-  | _ => (d, .ok ())
+      | some raw => some (some (.doctype (opt dt.name) (opt dt.publicId) (opt dt.systemId) dt.forceQuirks raw src))
+      | none => none
+    else some none
+  | _ => some none
+
+/-- text lexeme under the TEXT flag: `feed_text(lexeme, last = false)` — one chunk for the lexeme;
+the text node stays open. -/
+def Disp.produceText (ctl : Controller γ) (d : Disp γ) (input : Bytes) (lx : NonTagLexeme) (tt : TextType) :
+    DRes γ Unit :=
+  match checkedSlice input lx.raw with
+  | none => (d, .error (.panic "Bytes::slice out of range (text raw)"))
+  | some raw =>
+    (DRes.ofExcept d (d.emitChunkBefore input lx.raw)).bind fun d _ =>
+    (Disp.tokenProduced ctl { d with lastTextType := tt } (.text raw tt false (srcOf lx.prevConsumed lx.raw))).bind fun d _ =>
+    ({ d with textPending := true, textPendingStart := lx.prevConsumed + lx.raw.end, rcs := lx.raw.end }, .ok ())
+
+/-- `try_produce_token_from_lexeme` for non-tag lexemes. -/
+def Disp.produceNonTag (ctl : Controller γ) (d : Disp γ) (input : Bytes) (lx : NonTagLexeme) : DRes γ Unit :=
+  match lx.outline with
+  | some (.text tt) => if d.flags.text then d.produceText ctl input lx tt else (d, .ok ())
+  | _ =>
+    match nonTagToToken d.flags input lx with
+    | none => (d, .error (.panic "Bytes::slice out of range in to_token"))
+    | some none => (d, .ok ())
+    | some (some tok) => d.emitToken ctl input lx.raw tok
+
+/-- the aux-info request answered from the lexeme's attribute buffer -/
+def Disp.answerAux (ctl : Controller γ) (d : Disp γ) (info : AuxInfo) : DRes γ Unit :=
+  let r := ctl.auxInfo d.ctl info
+  match r.2 with
+  | .ok f => ({ d with ctl := r.1, flags := f }, .ok ())
+  | .error e => ({ d with ctl := r.1 }, .error e)
 
 /-- `adjust_capture_flags_for_tag_lexeme` (dispatcher.rs:261) -/
-def Disp.adjustFlagsForTag (ctl : Controller γ) (d : Disp γ) (input : Bytes) (lx : TagLexeme) :
-    Disp γ × Except Err Unit :=
+def Disp.adjustFlagsForTag (ctl : Controller γ) (d : Disp γ) (input : Bytes) (lx : TagLexeme) : DRes γ Unit :=
   if d.pendingAux then
     let d := { d with pendingAux := false }
     match lx.outline with
-    | .startTag _ _ _ as sc =>
-      let (g, r) := ctl.auxInfo d.ctl ⟨input, as, sc⟩
-      match r with
-      | .ok f => ({ d with ctl := g, flags := f }, .ok ())
-      | .error e => ({ d with ctl := g }, .error e)
+    | .startTag _ _ _ as sc => d.answerAux ctl ⟨input, as, sc⟩
     | .endTag .. => (d, .error (.internal "Tag should be a start tag at this point"))
   else
     match lx.outline with
@@ -271,86 +286,66 @@ def Disp.adjustFlagsForTag (ctl : Controller γ) (d : Disp γ) (input : Bytes) (
       match LocalName.new input name h with
       | none => (d, .error (.panic "Bytes::slice out of range (tag name)"))
       | some ln =>
-        let (g, r) := ctl.startTag d.ctl ln ns
-        let d := { d with ctl := g }
-        match r with
+        let r := ctl.startTag d.ctl ln ns
+        let d := { d with ctl := r.1 }
+        match r.2 with
         | .flags f => ({ d with flags := f }, .ok ())
-        | .infoRequest =>
-          let (g, r) := ctl.auxInfo d.ctl ⟨input, as, sc⟩
-          match r with
-          | .ok f => ({ d with ctl := g, flags := f }, .ok ())
-          | .error e => ({ d with ctl := g }, .error e)
+        | .infoRequest => d.answerAux ctl ⟨input, as, sc⟩
         | .err e => (d, .error e)
     | .endTag name h =>
       match LocalName.new input name h with
       | none => (d, .error (.panic "Bytes::slice out of range (tag name)"))
       | some ln =>
-        let (g, f) := ctl.endTag d.ctl ln
-        ({ d with ctl := g, flags := f }, .ok ())
+        let r := ctl.endTag d.ctl ln
+        ({ d with ctl := r.1, flags := r.2 }, .ok ())
 
 /-- `should_stop_removing_element_content` -/
 def Disp.shouldStopRemoving (ctl : Controller γ) (d : Disp γ) : Bool :=
   !d.emissionEnabled && ctl.shouldEmit d.ctl
 
+/-- the end-tag special case of `handle_tag` (dispatcher.rs:398): emission resumes at this end tag -/
+def Disp.resumeEmission (ctl : Controller γ) (d : Disp γ) (lx : TagLexeme) : Disp γ :=
+  if !lx.outline.isStart && d.shouldStopRemoving ctl
+  then { d with emissionEnabled := true, rcs := lx.raw.start } else d
+
 /-- `LexemeSink::handle_tag` (dispatcher.rs:389) -/
-def Disp.handleTag (ctl : Controller γ) (input : Bytes) (lx : TagLexeme) (d : Disp γ) :
-    Disp γ × Except Err Directive :=
-  let (d, r) := d.flushPendingText ctl
-  match r with
-  | .error e => (d, .error e)
-  | .ok () =>
-    let (d, r) : Disp γ × Except Err Unit :=
-      if d.gotFlagsFromHint then ({ d with gotFlagsFromHint := false }, .ok ())
-      else d.adjustFlagsForTag ctl input lx
-    match r with
-    | .error e => (d, .error e)
-    | .ok () =>
-      let d := if !lx.outline.isStart && d.shouldStopRemoving ctl
-               then { d with emissionEnabled := true, rcs := lx.raw.start } else d
-      let (d, r) := d.produceTag ctl input lx
-      match r with
-      | .error e => (d, .error e)
-      | .ok () =>
-        let d := { d with emissionEnabled := ctl.shouldEmit d.ctl }
-        (d, .ok d.nextDirective)
+def Disp.handleTag (ctl : Controller γ) (input : Bytes) (lx : TagLexeme) (d : Disp γ) : DRes γ Directive :=
+  (d.flushPendingText ctl).bind fun d _ =>
+  DRes.bind (if d.gotFlagsFromHint then (({ d with gotFlagsFromHint := false }, .ok ()) : DRes γ Unit)
+   else d.adjustFlagsForTag ctl input lx) fun d _ =>
+  ((d.resumeEmission ctl lx).produceTag ctl input lx).bind fun d _ =>
+  let d := { d with emissionEnabled := ctl.shouldEmit d.ctl }
+  (d, .ok d.nextDirective)
+
+def NonTagLexeme.isText (lx : NonTagLexeme) : Bool :=
+  match lx.outline with | some (.text _) => true | _ => false
 
 /-- `LexemeSink::handle_non_tag_content` (dispatcher.rs:412) -/
-def Disp.handleNonTag (ctl : Controller γ) (input : Bytes) (lx : NonTagLexeme) (d : Disp γ) :
-    Disp γ × Except Err Unit :=
-  let isText := match lx.outline with | some (.text _) => true | _ => false
-  let (d, r) : Disp γ × Except Err Unit := if isText then (d, .ok ()) else d.flushPendingText ctl
-  match r with
-  | .error e => (d, .error e)
-  | .ok () => d.produceNonTag ctl input lx
+def Disp.handleNonTag (ctl : Controller γ) (input : Bytes) (lx : NonTagLexeme) (d : Disp γ) : DRes γ Unit :=
+  DRes.bind (if lx.isText then ((d, .ok ()) : DRes γ Unit) else d.flushPendingText ctl) fun d _ =>
+  d.produceNonTag ctl input lx
 
 /-- `apply_capture_flags_from_hint_and_get_next_parser_directive` -/
-def Disp.applyHintFlags (d : Disp γ) (f : Flags) : Disp γ × Directive :=
+def Disp.applyHintFlags (d : Disp γ) (f : Flags) : DRes γ Directive :=
   let d := { d with flags := f }
-  let dir := d.nextDirective
-  ({ d with gotFlagsFromHint := dir == .lex }, dir)
+  ({ d with gotFlagsFromHint := d.nextDirective == .lex }, .ok d.nextDirective)
 
 /-- `TagHintSink::handle_start_tag_hint` (dispatcher.rs:426) -/
-def Disp.startTagHint (ctl : Controller γ) (name : LocalName) (ns : Ns) (d : Disp γ) :
-    Disp γ × Except Err Directive :=
-  let (g, r) := ctl.startTag d.ctl name ns
-  let d := { d with ctl := g }
-  match r with
-  | .flags f => let (d, dir) := d.applyHintFlags f; (d, .ok dir)
+def Disp.startTagHint (ctl : Controller γ) (name : LocalName) (ns : Ns) (d : Disp γ) : DRes γ Directive :=
+  let r := ctl.startTag d.ctl name ns
+  let d := { d with ctl := r.1 }
+  match r.2 with
+  | .flags f => d.applyHintFlags f
   | .infoRequest => ({ d with gotFlagsFromHint := false, pendingAux := true }, .ok .lex)
   | .err e => (d, .error e)
 
 /-- `TagHintSink::handle_end_tag_hint` (dispatcher.rs:449) -/
-def Disp.endTagHint (ctl : Controller γ) (name : LocalName) (d : Disp γ) :
-    Disp γ × Except Err Directive :=
-  let (d, r) := d.flushPendingText ctl
-  match r with
-  | .error e => (d, .error e)
-  | .ok () =>
-    let (g, f) := ctl.endTag d.ctl name
-    let d := { d with ctl := g }
-    let f := if d.shouldStopRemoving ctl then { f with nextEndTag := true } else f
-    let (d, dir) := d.applyHintFlags f
-    (d, .ok dir)
+def Disp.endTagHint (ctl : Controller γ) (name : LocalName) (d : Disp γ) : DRes γ Directive :=
+  (d.flushPendingText ctl).bind fun d _ =>
+  let r := ctl.endTag d.ctl name
+  let d := { d with ctl := r.1 }
+  let f := if d.shouldStopRemoving ctl then { r.2 with nextEndTag := true } else r.2
+  d.applyHintFlags f
 
 /-- The dispatcher as the parser's sink. -/
 def dispOps (ctl : Controller γ) : SinkOps (Disp γ) :=
@@ -361,18 +356,16 @@ def dispOps (ctl : Controller γ) : SinkOps (Disp γ) :=
 
 /-- `run_bail_out_handlers` (dispatcher.rs:372) -/
 def Disp.runBailOut (ctl : Controller γ) (d : Disp γ) (e : Err) : Disp γ :=
-  let (g, out) := ctl.bailOut d.ctl e
-  { d with ctl := g, sink := d.sink ++ out.map .chunk }
+  let r := ctl.bailOut d.ctl e
+  { d with ctl := r.1, sink := d.sink ++ r.2.map .chunk }
 
 /-- `finish` (dispatcher.rs:98): flush, `handle_end`, then the zero-length chunk. -/
-def Disp.finish (ctl : Controller γ) (d : Disp γ) (input : Bytes) : Disp γ × Except Err Unit :=
-  match d.flushRemaining input input.length with
+def Disp.finish (ctl : Controller γ) (d : Disp γ) (input : Bytes) : DRes γ Unit :=
+  (DRes.ofExcept d (d.flushRemaining input input.length)).bind fun d _ =>
+  let r := ctl.handleEnd d.ctl
+  let d := { d with ctl := r.1 }
+  match r.2 with
   | .error e => (d, .error e)
-  | .ok d =>
-    let (g, r) := ctl.handleEnd d.ctl
-    let d := { d with ctl := g }
-    match r with
-    | .error e => (d, .error e)
-    | .ok chunks => ({ d with sink := d.sink ++ chunks.map .chunk ++ [.chunk []] }, .ok ())
+  | .ok chunks => ({ d with sink := d.sink ++ chunks.map .chunk ++ [.chunk []] }, .ok ())
 
 end LolHtml.Model
